@@ -266,7 +266,8 @@ pub fn run<S: Scheme>(scn: &Scenario, log: &EventLog) -> RunResult {
                 let c: Vec<usize> = all_bounds.iter().copied().filter(|b| *b + 1 <= sup).collect();
                 if c.is_empty() { None } else {
                     let b = c[f.aux % c.len()];
-                    let p = mk(&PolySpec { degree: b + 1, degree_bound: Some(b), ..base.clone() });
+                    let shape = match f.param % 3 { 0 => Shape::Dense, 1 => Shape::LowZeros(1 + (f.param as usize / 3) % (b + 1)), _ => Shape::Sparse(1 + (f.param as usize / 3) % 3) };
+                    let p = mk(&PolySpec { degree: b + 1, degree_bound: Some(b), shape, ..base.clone() });
                     let o = step(|| PcOf::<S>::commit(ck, [&p], Some(&mut rng)));
                     Some((format!("commit(deg {} under bound {})", b + 1, b), o.is_ok(), o.describe()))
                 }
@@ -301,7 +302,8 @@ pub fn run<S: Scheme>(scn: &Scenario, log: &EventLog) -> RunResult {
             }
             "commit-degree-exceeds-supported" => {
                 let d = sup + 1 + f.aux % 3;
-                let p = mk(&PolySpec { degree: d, ..base.clone() });
+                let shape = match f.param % 3 { 0 => Shape::Dense, 1 => Shape::LowZeros(1 + (f.param as usize / 3) % d), _ => Shape::Sparse(1 + (f.param as usize / 3) % 3) };
+                let p = mk(&PolySpec { degree: d, shape, ..base.clone() });
                 let o = step(|| PcOf::<S>::commit(ck, [&p], Some(&mut rng)));
                 Some((format!("commit(deg {} > supported {})", d, sup), o.is_ok(), o.describe()))
             }
